@@ -3,76 +3,76 @@
 namespace Tea.Doc
 
 def fact_body_Batch : List String := [
-    "{ var validCmds []Cmd for _, c := range cmds { if c == nil { continue } validCmds = append(validCmds, c) } switch len(validCmds) { case 0: return nil case 1: return validCmds[0] default: return func() Msg { return BatchMsg(validCmds) } } }"]
+    "{ var v1 []Cmd for _, v2 := range a1 { if v2 == nil { continue } v1 = append(v1, v2) } switch len(v1) { case 0: return nil case 1: return v1[0] default: return func() Msg { return BatchMsg(v1) } } }"]
 
 def fact_body_Every : List String := [
-    "{ n := time.Now() d := n.Truncate(duration).Add(duration).Sub(n) t := time.NewTimer(d) return func() Msg { ts := <-t.C t.Stop() for len(t.C) > 0 { <-t.C } return fn(ts) } }"]
+    "{ v1 := time.Now() v2 := v1.Truncate(a1).Add(a1).Sub(v1) v3 := time.NewTimer(v2) return func() Msg { v4 := <-v3.C v3.Stop() for len(v3.C) > 0 { <-v3.C } return a2(v4) } }"]
 
 def fact_body_Program_Kill : List String := [
     "{ p.shutdown(true) }"]
 
 def fact_body_Program_Printf : List String := [
-    "{ p.Send(printLineMessage{ messageBody: fmt.Sprintf(template, args...), }) }"]
+    "{ p.Send(printLineMessage{ messageBody: fmt.Sprintf(a1, a2...), }) }"]
 
 def fact_body_Program_Println : List String := [
-    "{ p.Send(printLineMessage{ messageBody: fmt.Sprint(args...), }) }"]
+    "{ p.Send(printLineMessage{ messageBody: fmt.Sprint(a1...), }) }"]
 
 def fact_body_Program_Quit : List String := [
     "{ p.Send(Quit()) }"]
 
 def fact_body_Program_Send : List String := [
-    "{ select { case <-p.ctx.Done(): case p.msgs <- msg: } }"]
+    "{ select { case <-p.ctx.Done(): case p.msgs <- a1: } }"]
 
 def fact_body_Program_Wait : List String := [
     "{ <-p.finished }"]
 
 def fact_body_Program_checkResize : List String := [
-    "{ if p.ttyOutput == nil { return } w, h, err := term.GetSize(p.ttyOutput.Fd()) if err != nil { select { case <-p.ctx.Done(): case p.errs <- err: } return } p.Send(WindowSizeMsg{ Width: w, Height: h, }) }"]
+    "{ if p.ttyOutput == nil { return } v1, v2, v3 := term.GetSize(p.ttyOutput.Fd()) if v3 != nil { select { case <-p.ctx.Done(): case p.errs <- v3: } return } p.Send(WindowSizeMsg{ Width: v1, Height: v2, }) }"]
 
 def fact_body_Program_handleCommands : List String := [
-    "{ ch := make(chan struct{}) go func() { defer close(ch) for { select { case <-p.ctx.Done(): return case cmd := <-cmds: if cmd == nil { continue } go func() { if !p.startupOptions.has(withoutCatchPanics) { defer p.recoverFromPanic() } msg := cmd() p.Send(msg) }() } } }() return ch }"]
+    "{ v1 := make(chan struct{}) go func() { defer close(v1) for { select { case <-p.ctx.Done(): return case v2 := <-a1: if v2 == nil { continue } go func() { if !p.startupOptions.has(withoutCatchPanics) { defer p.recoverFromPanic() } v3 := v2() p.Send(v3) }() } } }() return v1 }"]
 
 def fact_body_Program_handleResize : List String := [
-    "{ ch := make(chan struct{}) if p.ttyOutput != nil { go p.checkResize() go p.listenForResize(ch) } else { close(ch) } return ch }"]
+    "{ v1 := make(chan struct{}) if p.ttyOutput != nil { go p.checkResize() go p.listenForResize(v1) } else { close(v1) } return v1 }"]
 
 def fact_body_Program_handleSignals : List String := [
-    "{ ch := make(chan struct{}) go func() { sig := make(chan os.Signal, 1) signal.Notify(sig, syscall.SIGINT, syscall.SIGTERM) defer func() { signal.Stop(sig) close(ch) }() for { select { case <-p.ctx.Done(): return case s := <-sig: if atomic.LoadUint32(&p.ignoreSignals) == 0 { switch s { case syscall.SIGINT: p.Send(InterruptMsg{}) default: p.Send(QuitMsg{}) } return } } } }() return ch }"]
+    "{ v1 := make(chan struct{}) go func() { v2 := make(chan os.Signal, 1) signal.Notify(v2, syscall.SIGINT, syscall.SIGTERM) defer func() { signal.Stop(v2) close(v1) }() for { select { case <-p.ctx.Done(): return case v3 := <-v2: if atomic.LoadUint32(&p.ignoreSignals) == 0 { switch v3 { case syscall.SIGINT: p.Send(InterruptMsg{}) default: p.Send(QuitMsg{}) } return } } } }() return v1 }"]
 
 def fact_body_Program_initCancelReader : List String := [
-    "{ if cancel && p.cancelReader != nil { p.cancelReader.Cancel() p.waitForReadLoop() } var err error p.cancelReader, err = newInputReader(p.input, p.mouseMode) if err != nil { return fmt.Errorf(\"error creating cancelreader: %w\", err) } p.readLoopDone = make(chan struct{}) go p.readLoop() return nil }"]
+    "{ if a1 && p.cancelReader != nil { p.cancelReader.Cancel() p.waitForReadLoop() } var v1 error p.cancelReader, v1 = newInputReader(p.input, p.mouseMode) if v1 != nil { return fmt.Errorf(\"error creating cancelreader: %w\", v1) } p.readLoopDone = make(chan struct{}) go p.readLoop() return nil }"]
 
 def fact_body_Program_listenForResize : List String := [
-    "{ sig := make(chan os.Signal, 1) signal.Notify(sig, syscall.SIGWINCH) defer func() { signal.Stop(sig) close(done) }() for { select { case <-p.ctx.Done(): return case <-sig: } p.checkResize() } }"]
+    "{ v1 := make(chan os.Signal, 1) signal.Notify(v1, syscall.SIGWINCH) defer func() { signal.Stop(v1) close(a1) }() for { select { case <-p.ctx.Done(): return case <-v1: } p.checkResize() } }"]
 
 def fact_body_Program_readLoop : List String := [
-    "{ defer close(p.readLoopDone) err := readInputs(p.ctx, p.msgs, p.cancelReader) if !errors.Is(err, io.EOF) && !errors.Is(err, cancelreader.ErrCanceled) { select { case <-p.ctx.Done(): case p.errs <- err: } } }"]
+    "{ defer close(p.readLoopDone) v1 := readInputs(p.ctx, p.msgs, p.cancelReader) if !errors.Is(v1, io.EOF) && !errors.Is(v1, cancelreader.ErrCanceled) { select { case <-p.ctx.Done(): case p.errs <- v1: } } }"]
 
 def fact_body_Program_waitForReadLoop : List String := [
     "{ select { case <-p.readLoopDone: case <-time.After(500 * time.Millisecond): } }"]
 
 def fact_body_Sequence : List String := [
-    "{ return func() Msg { return sequenceMsg(cmds) } }"]
+    "{ return func() Msg { return sequenceMsg(a1) } }"]
 
 def fact_body_Tick : List String := [
-    "{ t := time.NewTimer(d) return func() Msg { ts := <-t.C t.Stop() for len(t.C) > 0 { <-t.C } return fn(ts) } }"]
+    "{ v1 := time.NewTimer(a1) return func() Msg { v2 := <-v1.C v1.Stop() for len(v1.C) > 0 { <-v1.C } return a2(v2) } }"]
 
 def fact_body_WithFPS : List String := [
-    "{ return func(p *Program) { p.fps = fps } }"]
+    "{ return func(v1 *Program) { v1.fps = a1 } }"]
 
 def fact_body_WithFilter : List String := [
-    "{ return func(p *Program) { p.filter = filter } }"]
+    "{ return func(v1 *Program) { v1.filter = a1 } }"]
 
 def fact_body_channelHandlers_shutdown : List String := [
-    "{ var wg sync.WaitGroup for _, ch := range h { wg.Add(1) go func(ch chan struct{}) { <-ch wg.Done() }(ch) } wg.Wait() }"]
+    "{ var v1 sync.WaitGroup for _, v2 := range h { v1.Add(1) go func(v3 chan struct{}) { <-v3 v1.Done() }(v2) } v1.Wait() }"]
 
 def fact_body_detectReportFocus : List String := [
-    "{ switch { case bytes.Equal(input, []byte(\"\\x1b[I\")): return true, 3, FocusMsg{} case bytes.Equal(input, []byte(\"\\x1b[O\")): return true, 3, BlurMsg{} } return false, 0, nil }"]
+    "{ switch { case bytes.Equal(a1, []byte(\"\\x1b[I\")): return true, 3, FocusMsg{} case bytes.Equal(a1, []byte(\"\\x1b[O\")): return true, 3, BlurMsg{} } return false, 0, nil }"]
 
 def fact_body_newRenderer : List String := [
-    "{ if fps < 1 { fps = defaultFPS } else if fps > maxFPS { fps = maxFPS } r := &standardRenderer{ out: out, mtx: &sync.Mutex{}, done: make(chan struct{}), framerate: time.Second / time.Duration(fps), useANSICompressor: useANSICompressor, queuedMessageLines: []string{}, } if r.useANSICompressor { r.out = &compressor.Writer{Forward: out} } return r }"]
+    "{ if a3 < 1 { a3 = defaultFPS } else if a3 > maxFPS { a3 = maxFPS } v1 := &standardRenderer{ a1: a1, mtx: &sync.Mutex{}, done: make(chan struct{}), framerate: time.Second / time.Duration(a3), a2: a2, queuedMessageLines: []string{}, } if v1.useANSICompressor { v1.out = &compressor.Writer{Forward: a1} } return v1 }"]
 
 def fact_body_standardRenderer_handleMessages : List String := [
-    "{ switch msg := msg.(type) { case repaintMsg: r.mtx.Lock() r.repaint() r.mtx.Unlock() case WindowSizeMsg: r.mtx.Lock() r.width = msg.Width r.height = msg.Height r.repaint() r.mtx.Unlock() case clearScrollAreaMsg: r.clearIgnoredLines() r.mtx.Lock() r.repaint() r.mtx.Unlock() case syncScrollAreaMsg: r.clearIgnoredLines() r.setIgnoredLines(msg.topBoundary, msg.bottomBoundary) r.insertTop(msg.lines, msg.topBoundary, msg.bottomBoundary) r.mtx.Lock() r.repaint() r.mtx.Unlock() case scrollUpMsg: r.insertTop(msg.lines, msg.topBoundary, msg.bottomBoundary) case scrollDownMsg: r.insertBottom(msg.lines, msg.topBoundary, msg.bottomBoundary) case printLineMessage: if !r.altScreenActive { lines := strings.Split(msg.messageBody, \"\\n\") r.mtx.Lock() r.queuedMessageLines = append(r.queuedMessageLines, lines...) r.repaint() r.mtx.Unlock() } } }"]
+    "{ switch v1 := a1.(type) { case repaintMsg: r.mtx.Lock() r.repaint() r.mtx.Unlock() case WindowSizeMsg: r.mtx.Lock() r.width = v1.Width r.height = v1.Height r.repaint() r.mtx.Unlock() case clearScrollAreaMsg: r.clearIgnoredLines() r.mtx.Lock() r.repaint() r.mtx.Unlock() case syncScrollAreaMsg: r.clearIgnoredLines() r.setIgnoredLines(v1.topBoundary, v1.bottomBoundary) r.insertTop(v1.lines, v1.topBoundary, v1.bottomBoundary) r.mtx.Lock() r.repaint() r.mtx.Unlock() case scrollUpMsg: r.insertTop(v1.lines, v1.topBoundary, v1.bottomBoundary) case scrollDownMsg: r.insertBottom(v1.lines, v1.topBoundary, v1.bottomBoundary) case printLineMessage: if !r.altScreenActive { v2 := strings.Split(v1.messageBody, \"\\n\") r.mtx.Lock() r.queuedMessageLines = append(r.queuedMessageLines, v2...) r.repaint() r.mtx.Unlock() } } }"]
 
 def fact_body_standardRenderer_listen : List String := [
     "{ for { select { case <-r.done: r.ticker.Stop() return case <-r.ticker.C: r.flush() } } }"]
@@ -84,7 +84,7 @@ def fact_body_standardRenderer_start : List String := [
     "{ if r.ticker == nil { r.ticker = time.NewTicker(r.framerate) } else { r.ticker.Reset(r.framerate) } r.once = sync.Once{} go r.listen() }"]
 
 def fact_body_standardRenderer_write : List String := [
-    "{ r.mtx.Lock() defer r.mtx.Unlock() r.buf.Reset() if s == \"\" { s = \" \" } _, _ = r.buf.WriteString(s) }"]
+    "{ r.mtx.Lock() defer r.mtx.Unlock() r.buf.Reset() if a1 == \"\" { a1 = \" \" } _, _ = r.buf.WriteString(a1) }"]
 
 def fact_bufsize : List String := [
     "256"]
@@ -92,16 +92,16 @@ def fact_bufsize : List String := [
 def fact_calls : List String := [
     "Program.Kill|p.shutdown|go=false|defer=false",
     "Program.ReleaseTerminal|p.restoreTerminalState|go=false|defer=false",
-    "Program.Run|model.Init|go=false|defer=false",
-    "Program.Run|model.View|go=false|defer=false",
-    "Program.Run|model.View|go=false|defer=false",
     "Program.Run|p.shutdown|go=false|defer=false",
     "Program.Run|p.shutdown|go=false|defer=false",
     "Program.Run|recover|go=false|defer=true",
-    "Program.eventLoop|model.Update|go=false|defer=false",
-    "Program.eventLoop|model.View|go=false|defer=false",
+    "Program.Run|v9.Init|go=false|defer=false",
+    "Program.Run|v9.View|go=false|defer=false",
+    "Program.Run|v9.View|go=false|defer=false",
+    "Program.eventLoop|a1.Update|go=false|defer=false",
+    "Program.eventLoop|a1.View|go=false|defer=false",
     "Program.eventLoop|p.filter|go=false|defer=false",
-    "Program.eventLoop|r.handleMessages|go=false|defer=false",
+    "Program.eventLoop|v12.handleMessages|go=false|defer=false",
     "Program.handleCommands|p.recoverFromPanic|go=true|defer=true",
     "Program.handlePanic|p.shutdown|go=false|defer=false",
     "Program.recoverFromPanic|recover|go=false|defer=false",
@@ -111,12 +111,12 @@ def fact_calls : List String := [
     "standardRenderer.stop|r.flush|go=false|defer=false"]
 
 def fact_closes : List String := [
-    "Program.Run|ch",
     "Program.Run|p.finished",
-    "Program.handleCommands|ch",
-    "Program.handleResize|ch",
-    "Program.handleSignals|ch",
-    "Program.listenForResize|done",
+    "Program.Run|v11",
+    "Program.handleCommands|v1",
+    "Program.handleResize|v1",
+    "Program.handleSignals|v1",
+    "Program.listenForResize|a1",
     "Program.readLoop|p.readLoopDone"]
 
 def fact_ctxchecks : List String := [
@@ -132,19 +132,19 @@ def fact_ctxchecks : List String := [
     "Program.handleSignals|p.ctx.Done",
     "Program.listenForResize|p.ctx.Done",
     "Program.readLoop|p.ctx.Done",
-    "readAnsiInputs|ctx.Done",
-    "readAnsiInputs|ctx.Done",
-    "readAnsiInputs|ctx.Err",
-    "readAnsiInputs|ctx.Err"]
+    "readAnsiInputs|a1.Done",
+    "readAnsiInputs|a1.Done",
+    "readAnsiInputs|a1.Err",
+    "readAnsiInputs|a1.Err"]
 
 def fact_el_case_BatchMsg : List String := [
-    "for _, cmd := range msg { select { case <-p.ctx.Done(): return model, nil case cmds <- cmd: } }; continue"]
+    "for _, v4 := range v3 { select { case <-p.ctx.Done(): return a1, nil case a2 <- v4: } }; continue"]
 
 def fact_el_case_InterruptMsg : List String := [
-    "return model, ErrInterrupted"]
+    "return a1, ErrInterrupted"]
 
 def fact_el_case_QuitMsg : List String := [
-    "return model, nil"]
+    "return a1, nil"]
 
 def fact_el_case_SuspendMsg : List String := [
     "if suspendSupported { p.suspend() }"]
@@ -165,7 +165,7 @@ def fact_el_case_enableBracketedPasteMsg : List String := [
     "p.renderer.enableBracketedPaste()"]
 
 def fact_el_case_enableMouseCellMotionMsg_enableMouseAllMotionMsg : List String := [
-    "switch msg.(type) { case enableMouseCellMotionMsg: p.renderer.enableMouseCellMotion() case enableMouseAllMotionMsg: p.renderer.enableMouseAllMotion() }; p.renderer.enableMouseSGRMode(); if runtime.GOOS == \"windows\" && !p.mouseMode { p.mouseMode = true p.initCancelReader(true) }"]
+    "switch v3.(type) { case enableMouseCellMotionMsg: p.renderer.enableMouseCellMotion() case enableMouseAllMotionMsg: p.renderer.enableMouseAllMotion() }; p.renderer.enableMouseSGRMode(); if runtime.GOOS == \"windows\" && !p.mouseMode { p.mouseMode = true p.initCancelReader(true) }"]
 
 def fact_el_case_enableReportFocusMsg : List String := [
     "p.renderer.enableReportFocus()"]
@@ -174,7 +174,7 @@ def fact_el_case_enterAltScreenMsg : List String := [
     "p.renderer.enterAltScreen()"]
 
 def fact_el_case_execMsg : List String := [
-    "p.exec(msg.cmd, msg.fn)"]
+    "p.exec(v3.cmd, v3.fn)"]
 
 def fact_el_case_exitAltScreenMsg : List String := [
     "p.renderer.exitAltScreen()"]
@@ -183,10 +183,10 @@ def fact_el_case_hideCursorMsg : List String := [
     "p.renderer.hideCursor()"]
 
 def fact_el_case_sequenceMsg : List String := [
-    "go func() { for _, cmd := range msg { if cmd == nil { continue } msg := cmd() if batchMsg, ok := msg.(BatchMsg); ok { g, _ := errgroup.WithContext(p.ctx) for _, cmd := range batchMsg { if cmd == nil { continue } cmd := cmd g.Go(func() error { p.Send(cmd()) return nil }) } g.Wait() continue } p.Send(msg) } }()"]
+    "go func() { for _, v5 := range v3 { if v5 == nil { continue } v6 := v5() if v7, v8 := v6.(BatchMsg); v8 { v9, _ := errgroup.WithContext(p.ctx) for _, v10 := range v7 { if v10 == nil { continue } v11 := v10 v9.Go(func() error { p.Send(v11()) return nil }) } v9.Wait() continue } p.Send(v6) } }()"]
 
 def fact_el_case_setWindowTitleMsg : List String := [
-    "p.SetWindowTitle(string(msg))"]
+    "p.SetWindowTitle(string(v3))"]
 
 def fact_el_case_showCursorMsg : List String := [
     "p.renderer.showCursor()"]
@@ -195,18 +195,18 @@ def fact_el_case_windowSizeMsg : List String := [
     "go p.checkResize()"]
 
 def fact_el_head : List String := [
-    "case <-p.ctx.Done(): return model, nil",
-    "case err := <-p.errs: return model, err",
-    "case msg := <-p.msgs:",
-    "if p.filter != nil { msg = p.filter(model, msg) }",
-    "if msg == nil { continue }"]
+    "case <-p.ctx.Done(): return a1, nil",
+    "case v1 := <-p.errs: return a1, v1",
+    "case v2 := <-p.msgs:",
+    "if p.filter != nil { v2 = p.filter(a1, v2) }",
+    "if v2 == nil { continue }"]
 
 def fact_el_tail : List String := [
-    "if r, ok := p.renderer.(*standardRenderer); ok { r.handleMessages(msg) }",
-    "var cmd Cmd",
-    "model, cmd = model.Update(msg)",
-    "select { case <-p.ctx.Done(): return model, nil case cmds <- cmd: }",
-    "p.renderer.write(model.View())"]
+    "if v12, v13 := p.renderer.(*standardRenderer); v13 { v12.handleMessages(v2) }",
+    "var v14 Cmd",
+    "a1, v14 = a1.Update(v2)",
+    "select { case <-p.ctx.Done(): return a1, nil case a2 <- v14: }",
+    "p.renderer.write(a1.View())"]
 
 def fact_gostmts : List String := [
     "Program.RestoreTerminal|p.Send",
@@ -303,7 +303,7 @@ def fact_order_Program_Run : List String := [
     "[!p.startupOptions.has(withoutSignalHandler)]p.handlers.add",
     "[!p.startupOptions.has(withoutSignalHandler)]p.handleSignals",
     "p.startupOptions.has",
-    "[!p.startupOptions.has(withoutCatchPanics)]{lit}[r != nil]p.handlePanic",
+    "[!p.startupOptions.has(withoutCatchPanics)]{lit}[_ != nil]p.handlePanic",
     "[p.renderer == nil]newRenderer",
     "[p.renderer == nil]p.startupOptions.has",
     "p.initTerminal",
@@ -316,21 +316,21 @@ def fact_order_Program_Run : List String := [
     "[!p.startupOptions&withMouseCellMotion != 0][p.startupOptions&withMouseAllMotion != 0]p.renderer.enableMouseSGRMode",
     "[p.startupOptions&withReportFocus != 0]p.renderer.enableReportFocus",
     "p.renderer.start",
-    "[initCmd != nil]p.handlers.add",
-    "[initCmd != nil]{lit}close(ch)",
-    "[initCmd != nil]{lit}p.ctx.Done",
+    "[_ != nil]p.handlers.add",
+    "[_ != nil]{lit}close(_)",
+    "[_ != nil]{lit}p.ctx.Done",
     "p.renderer.write",
     "[p.input != nil]p.initCancelReader(false)",
-    "[p.input != nil][err != nil]p.shutdown(true)",
+    "[p.input != nil][_ != nil]p.shutdown(true)",
     "p.handlers.add",
     "p.handleResize",
     "p.handlers.add",
     "p.handleCommands",
     "p.eventLoop",
     "p.ctx.Err",
-    "[killed && err == nil]p.ctx.Err",
-    "[err == nil]p.renderer.write",
-    "p.shutdown(killed)"]
+    "[_ && _ == nil]p.ctx.Err",
+    "[_ == nil]p.renderer.write",
+    "p.shutdown(_)"]
 
 def fact_order_Program_disableMouse : List String := [
     "p.renderer.disableMouseCellMotion",
@@ -339,22 +339,18 @@ def fact_order_Program_disableMouse : List String := [
 
 def fact_order_Program_exec : List String := [
     "p.ReleaseTerminal",
-    "[err != nil][fn != nil]p.Send",
-    "c.SetStdin",
-    "c.SetStdout",
-    "c.SetStderr",
-    "c.Run",
-    "[err != nil]p.RestoreTerminal",
-    "[err != nil][fn != nil]p.Send",
+    "[_ != nil][_ != nil]p.Send",
+    "[_ != nil]p.RestoreTerminal",
+    "[_ != nil][_ != nil]p.Send",
     "p.RestoreTerminal",
-    "[fn != nil]p.Send"]
+    "[_ != nil]p.Send"]
 
 def fact_order_Program_initTerminal : List String := [
     "p.initInput",
     "p.renderer.hideCursor"]
 
 def fact_order_Program_recoverFromPanic : List String := [
-    "[r != nil]p.handlePanic"]
+    "[_ != nil]p.handlePanic"]
 
 def fact_order_Program_restoreTerminalState : List String := [
     "[p.renderer != nil]p.renderer.disableBracketedPaste",
@@ -370,10 +366,10 @@ def fact_order_Program_shutdown : List String := [
     "p.cancel",
     "p.handlers.shutdown",
     "[p.cancelReader != nil]p.cancelReader.Cancel",
-    "[p.cancelReader != nil][p.cancelReader.Cancel()][!kill]p.waitForReadLoop",
+    "[p.cancelReader != nil][p.cancelReader.Cancel()][!_]p.waitForReadLoop",
     "[p.cancelReader != nil]p.cancelReader.Close",
-    "[p.renderer != nil][kill]p.renderer.kill",
-    "[p.renderer != nil][!kill]p.renderer.stop",
+    "[p.renderer != nil][_]p.renderer.kill",
+    "[p.renderer != nil][!_]p.renderer.stop",
     "p.restoreTerminalState"]
 
 def fact_order_standardRenderer_kill : List String := [
@@ -401,8 +397,8 @@ def fact_order_standardRenderer_stop : List String := [
     "r.repaint"]
 
 def fact_recvs : List String := [
-    "Every|t.C|bare|go=false",
-    "Every|t.C|bare|go=false",
+    "Every|v3.C|bare|go=false",
+    "Every|v3.C|bare|go=false",
     "Program.Run|p.ctx.Done()|select+done|go=true",
     "Program.Send|p.ctx.Done()|select+done|go=false",
     "Program.Wait|p.finished|bare|go=false",
@@ -412,53 +408,53 @@ def fact_recvs : List String := [
     "Program.eventLoop|p.ctx.Done()|select+done|go=false",
     "Program.eventLoop|p.errs|select+done|go=false",
     "Program.eventLoop|p.msgs|select+done|go=false",
-    "Program.handleCommands|cmds|select+done|go=true",
+    "Program.handleCommands|a1|select+done|go=true",
     "Program.handleCommands|p.ctx.Done()|select+done|go=true",
     "Program.handleSignals|p.ctx.Done()|select+done|go=true",
-    "Program.handleSignals|sig|select+done|go=true",
+    "Program.handleSignals|v2|select+done|go=true",
     "Program.listenForResize|p.ctx.Done()|select+done|go=false",
-    "Program.listenForResize|sig|select+done|go=false",
+    "Program.listenForResize|v1|select+done|go=false",
     "Program.readLoop|p.ctx.Done()|select+done|go=false",
     "Program.waitForReadLoop|p.readLoopDone|select|go=false",
     "Program.waitForReadLoop|time.After(500 * time.Millisecond)|select|go=false",
-    "Tick|t.C|bare|go=false",
-    "Tick|t.C|bare|go=false",
-    "channelHandlers.shutdown|ch|bare|go=true",
-    "readAnsiInputs|ctx.Done()|select+done|go=false",
-    "readAnsiInputs|ctx.Done()|select+done|go=false",
+    "Tick|v1.C|bare|go=false",
+    "Tick|v1.C|bare|go=false",
+    "channelHandlers.shutdown|v3|bare|go=true",
+    "readAnsiInputs|a1.Done()|select+done|go=false",
+    "readAnsiInputs|a1.Done()|select+done|go=false",
     "standardRenderer.listen|r.done|select|go=false",
     "standardRenderer.listen|r.ticker.C|select|go=false",
-    "suspendProcess|c|bare|go=false"]
+    "suspendProcess|v1|bare|go=false"]
 
 def fact_sendcalls : List String := [
-    "Program.Printf|printLineMessage{ messageBody: fmt.Sprintf(template, args...), }|go=false",
-    "Program.Println|printLineMessage{ messageBody: fmt.Sprint(args...), }|go=false",
+    "Program.Printf|printLineMessage{ messageBody: fmt.Sprintf(a1, a2...), }|go=false",
+    "Program.Println|printLineMessage{ messageBody: fmt.Sprint(a1...), }|go=false",
     "Program.Quit|Quit()|go=false",
     "Program.RestoreTerminal|repaintMsg{}|go=true",
-    "Program.checkResize|WindowSizeMsg{ Width: w, Height: h, }|go=false",
-    "Program.eventLoop|cmd()|go=true",
-    "Program.eventLoop|msg|go=true",
-    "Program.exec|fn(err)|go=true",
-    "Program.exec|fn(err)|go=true",
-    "Program.exec|fn(err)|go=true",
-    "Program.handleCommands|msg|go=true",
+    "Program.checkResize|WindowSizeMsg{ Width: v1, Height: v2, }|go=false",
+    "Program.eventLoop|v11()|go=true",
+    "Program.eventLoop|v6|go=true",
+    "Program.exec|a2(v1)|go=true",
+    "Program.exec|a2(v2)|go=true",
+    "Program.exec|a2(v3)|go=true",
+    "Program.handleCommands|v3|go=true",
     "Program.handleSignals|InterruptMsg{}|go=true",
     "Program.handleSignals|QuitMsg{}|go=true",
     "Program.suspend|ResumeMsg{}|go=true"]
 
 def fact_sends : List String := [
-    "Program.Run|cmds|select+done|go=true",
+    "Program.Run|v1|select+done|go=true",
     "Program.Send|p.msgs|select+done|go=false",
     "Program.checkResize|p.errs|select+done|go=false",
-    "Program.eventLoop|cmds|select+done|go=false",
-    "Program.eventLoop|cmds|select+done|go=false",
+    "Program.eventLoop|a2|select+done|go=false",
+    "Program.eventLoop|a2|select+done|go=false",
     "Program.readLoop|p.errs|select+done|go=false",
-    "readAnsiInputs|msgs|select+done|go=false",
-    "readAnsiInputs|msgs|select+done|go=false",
+    "readAnsiInputs|a2|select+done|go=false",
+    "readAnsiInputs|a2|select+done|go=false",
     "standardRenderer.kill|r.done|bare|go=false",
     "standardRenderer.stop|r.done|bare|go=false"]
 
 def fact_sig_Program_Run : List String := [
-    "func() (returnModel Model, returnErr error)"]
+    "func() (o1 Model, o2 error)"]
 
 end Tea.Doc
